@@ -309,8 +309,161 @@ fn run_conn(prog: &Prog, schedule: Vec<usize>, random: bool, seed: u64) -> Outco
     o
 }
 
+// ---------------------------------------------------------------------------------------------
+// UniqueIndexSet (C09)
+fn gen_uis_prog(rng: &mut Rng) -> Prog {
+    let cap = rng.range(1, 3);
+    let mut threads = vec![];
+    for _ in 0..rng.range(2, 3) {
+        let mut ops = vec![];
+        let mut held = 0i32;
+        for _ in 0..rng.range(1, 4) {
+            match rng.below(10) {
+                0..=4 => { ops.push("acquire".to_string()); held += 1; }
+                5..=7 if held > 0 => { ops.push(format!("release {}", rng.below(held as u64))); held -= 1; }
+                8 if held > 0 => { ops.push(format!("release_lock {}", rng.below(held as u64))); held -= 1; }
+                _ => ops.push("borrowed".to_string()),
+            }
+        }
+        threads.push(ops);
+    }
+    Prog { header: format!("uis cap={cap}"), threads }
+}
+
+fn run_uis(prog: &Prog, schedule: Vec<usize>, random: bool, seed: u64) -> Outcome {
+    use iceoryx2_bb_lock_free::mpmc::unique_index_set::UniqueIndexSet;
+    use iceoryx2_bb_lock_free::mpmc::unique_index_set_enums::{ReleaseMode, ReleaseState, UniqueIndexSetAcquireFailure};
+    let cap = hget(&prog.header, "cap");
+    let blk = Shared::new(RelocBlock::<UniqueIndexSet>::new(cap, 0));
+    let r = blk.get().range();
+    let mut bodies: Vec<Box<dyn FnOnce(usize) + Send>> = vec![];
+    for ops in prog.threads.clone() {
+        let blk = blk.clone();
+        bodies.push(Box::new(move |tid| {
+            let s = blk.get().get();
+            let mut held: Vec<u32> = vec![];
+            for op in ops {
+                let t: Vec<&str> = op.split(' ').collect();
+                let r: Option<String> = match t[0] {
+                    "acquire" => Some(match unsafe { s.acquire_raw_index() } {
+                        Ok(i) => { held.push(i); format!("ok:{i}") }
+                        Err(UniqueIndexSetAcquireFailure::OutOfIndices) => "err:OutOfIndices".into(),
+                        Err(UniqueIndexSetAcquireFailure::IsLocked) => "err:IsLocked".into(),
+                    }),
+                    "release" | "release_lock" => {
+                        let pos: usize = t[1].parse().unwrap();
+                        if pos < held.len() {
+                            let idx = held.remove(pos);
+                            let mode = if t[0] == "release" { ReleaseMode::Default } else { ReleaseMode::LockIfLastIndex };
+                            Some(match unsafe { s.release_raw_index(idx, mode) } { ReleaseState::Locked => "locked".into(), ReleaseState::Unlocked => "unlocked".into() })
+                        } else { None }
+                    }
+                    "borrowed" => Some(format!("{}", s.borrowed_indices())),
+                    _ => panic!("bad op"),
+                };
+                if let Some(r) = r {
+                    let name = if t[0] == "release_lock" { "release" } else { t[0] };
+                    sched::record(tid, format!("ret {} {}", name, r));
+                }
+            }
+        }));
+    }
+    sched::execute(bodies, schedule, random, seed, vec![r])
+}
+
+// ---------------------------------------------------------------------------------------------
+// RobustUniqueIndexSet (C09): owner id of thread i is 100 + i
+fn gen_ruis_prog(rng: &mut Rng) -> Prog {
+    let cap = rng.range(1, 3);
+    let n = rng.range(2, 3) as usize;
+    let mut threads = vec![];
+    let victim = if rng.chance(40) { Some(rng.below(n as u64) as usize) } else { None };
+    for i in 0..n {
+        let mut ops = vec![];
+        let mut held = 0i32;
+        for _ in 0..rng.range(1, 4) {
+            match rng.below(12) {
+                0..=4 => { ops.push("acquire".to_string()); held += 1; }
+                5..=6 if held > 0 => { ops.push(format!("release {}", rng.below(held as u64))); held -= 1; }
+                7..=8 if held > 0 => { ops.push(format!("release_lock {}", rng.below(held as u64))); held -= 1; }
+                9 => ops.push("borrowed".to_string()),
+                10..=11 if victim.is_some() && victim != Some(i) => {
+                    ops.push(format!("{} {}", if rng.chance(50) { "recover" } else { "recover_lock" }, 100 + victim.unwrap()));
+                }
+                _ => ops.push("acquire".to_string()),
+            }
+        }
+        if victim == Some(i) {
+            ops.truncate(2);
+            ops.push("die".to_string());
+        }
+        threads.push(ops);
+    }
+    Prog { header: format!("ruis cap={cap}"), threads }
+}
+
+fn run_ruis(prog: &Prog, schedule: Vec<usize>, random: bool, seed: u64) -> Outcome {
+    use iceoryx2_bb_lock_free::mpmc::robust_unique_index_set::{OwnerId, RobustUniqueIndexSet};
+    use iceoryx2_bb_lock_free::mpmc::unique_index_set_enums::{ReleaseMode, ReleaseState, UniqueIndexSetAcquireFailure};
+    let cap = hget(&prog.header, "cap");
+    let blk = Shared::new(RelocBlock::<RobustUniqueIndexSet>::new(cap, 0));
+    let r = blk.get().range();
+    // which owners are dead (set by the dying thread right after its last operation)
+    let dead_flags: Arc<Vec<std::sync::atomic::AtomicBool>> = Arc::new((0..prog.threads.len()).map(|_| std::sync::atomic::AtomicBool::new(false)).collect());
+    for (i, ops) in prog.threads.iter().enumerate() {
+        if ops.first().map(|s| s.as_str()) == Some("die") {
+            dead_flags[i].store(true, std::sync::atomic::Ordering::SeqCst);
+        }
+    }
+    let mut bodies: Vec<Box<dyn FnOnce(usize) + Send>> = vec![];
+    for ops in prog.threads.clone() {
+        let blk = blk.clone();
+        let dead_flags = dead_flags.clone();
+        bodies.push(Box::new(move |tid| {
+            let s = blk.get().get();
+            let me = OwnerId::new(100 + tid as u64).unwrap();
+            let mut held: Vec<usize> = vec![];
+            let rs = |r: ReleaseState| match r { ReleaseState::Locked => "locked", ReleaseState::Unlocked => "unlocked" };
+            for op in ops {
+                let t: Vec<&str> = op.split(' ').collect();
+                let r: Option<String> = match t[0] {
+                    "acquire" => Some(match unsafe { s.acquire(me) } {
+                        Ok(i) => { held.push(i); format!("ok:{i}") }
+                        Err(UniqueIndexSetAcquireFailure::OutOfIndices) => "err:OutOfIndices".into(),
+                        Err(UniqueIndexSetAcquireFailure::IsLocked) => "err:IsLocked".into(),
+                    }),
+                    "release" | "release_lock" => {
+                        let pos: usize = t[1].parse().unwrap();
+                        if pos < held.len() {
+                            let idx = held.remove(pos);
+                            let mode = if t[0] == "release" { ReleaseMode::Default } else { ReleaseMode::LockIfLastIndex };
+                            Some(match unsafe { s.release(idx, me, mode) } { Ok(st) => rs(st).into(), Err(_) => "err:NotOwned".into() })
+                        } else { None }
+                    }
+                    "borrowed" => Some(format!("{}", s.borrowed_indices())),
+                    "recover" | "recover_lock" if { sched::gate(tid); !dead_flags[t[1].parse::<usize>().unwrap() - 100].load(std::sync::atomic::Ordering::SeqCst) } => Some("skipped".into()),
+                    "recover" | "recover_lock" => {
+                        let dead: u64 = t[1].parse().unwrap();
+                        let mode = if t[0] == "recover" { ReleaseMode::Default } else { ReleaseMode::LockIfLastIndex };
+                        Some(rs(unsafe { s.recover(mode, |o, _| o == OwnerId::new(dead).unwrap(), |_, _| {}) }).to_string())
+                    }
+                    "die" => { dead_flags[tid].store(true, std::sync::atomic::Ordering::SeqCst); return; }
+                    _ => panic!("bad op"),
+                };
+                if let Some(r) = r {
+                    let name = t[0].trim_end_matches("_lock");
+                    sched::record(tid, format!("ret {} {}", name, r));
+                }
+            }
+        }));
+    }
+    sched::execute(bodies, schedule, random, seed, vec![r])
+}
+
 pub fn generate(component: &str, rng: &mut Rng) -> Prog {
     match component {
+        "ruis" => gen_ruis_prog(rng),
+        "uis" => gen_uis_prog(rng),
         "conn" => gen_conn_prog(rng, false),
         "conn-misuse" => gen_conn_prog(rng, true),
         "seqlock" => gen_seqlock_prog(rng),
@@ -324,6 +477,8 @@ pub fn run(component: &str, prog: &Prog, schedule: Vec<usize>, random: bool, see
     let cap = hget(&prog.header, "cap");
     match component {
         "conn" | "conn-misuse" => run_conn(prog, schedule, random, seed),
+        "uis" => run_uis(prog, schedule, random, seed),
+        "ruis" => run_ruis(prog, schedule, random, seed),
         "seqlock" => match hget(&prog.header, "width") {
             1 => run_seqlock::<1>(prog, schedule, random, seed),
             2 => run_seqlock::<2>(prog, schedule, random, seed),
